@@ -248,9 +248,14 @@ class Run:
     pass
 
 
-def run(sc, chooser, max_steps=8000, eager=()):
+FINE_FILES = ('lightstreamer_adapter/server.py', 'lightstreamer_adapter/subscription.py')
+
+
+def run(sc, chooser, max_steps=8000, eager=(), fine=False, fine_seed=0):
     import lightstreamer_adapter.server as server
-    S = dsched.Sched()
+    S = dsched.Sched(fine=FINE_FILES if fine else None, fine_seed=fine_seed)
+    if fine:
+        max_steps = max_steps * 8
     log = {'calls': [], 'hand': [], 'handio': [], 'job_rid': {}, 'ncalls': {}, 'lines_by_rid': {l.rid: l for l in sc.lines if l.rid is not None}}
     cur_job = {}
     for j, ln in enumerate(static_served(sc)):
